@@ -5,7 +5,7 @@
    with the C01 models of pycaption's own readers. *)
 From Coq Require Import List ZArith QArith Bool.
 From PV Require Import lib.Sx lib.Str lib.Result.
-From PV Require Import model.TimeRead spec.SpecTime model.Chain spec.SpecChain proofs.ChainFacts proofs.ChainDocFacts.
+From PV Require Import model.TimeRead spec.SpecTime model.Chain spec.SpecChain proofs.ChainFacts proofs.ChainDocFacts proofs.ChainSrtDocFacts.
 Import ListNotations.
 Open Scope Z_scope.
 
@@ -159,4 +159,42 @@ Example C08_ex_oracle_resolution :
   ok_chain [FVtt] [(1234567, 2000999)] (Ok [(1236000, 2000000)]) (Ok [(1236000, 2000000)]) = false /\
   ok_chain [FVtt] [(1234567, 2000999)] (Ok [(1234000, 2000000)]) (Ok [(1234000, 2000001)]) = false /\
   ok_chain [FSami] [(1000000, 2000000)] (Ok [(1000000, 6000000)]) (Ok [(1000000, 6000000)]) = true.
+Proof. vm_compute. repeat split; reflexivity. Qed.
+
+(* ---- wave 5: TEXT along a chain, at document (string) level, for SRT and MicroDVD ---------------------------------
+   srt_write_doc / mdvd_write print the whole document (counter, timing line / frames, text lines, the writers' final
+   clean-up); srt_read / mdvd_read are the C01 models of pycaption's readers.  WebVTT, DFXP, SAMI: text stays
+   correspondence only. *)
+Theorem C08_srt_roundtrip_string : forall cs,
+  dom_u 1000 0 (times_of_caps cs) -> srt_text_dom cs = true ->
+  srt_read (srt_write_doc cs)
+  = read_result (map (fun c => (fl 1000 (fst (fst c)), fl 1000 (snd (fst c)), snd c)) cs).
+Proof. exact srt_roundtrip_string. Qed.
+Print Assumptions C08_srt_roundtrip_string.
+
+(* every chain of SRT and MicroDVD hops, each hop = print the document, read it back: the cues come back with the
+   times of the spec's run (= the closed form, C08_chain_closed_form) AND with their text lines unchanged *)
+Theorem C08_chain_doc_text : forall chain cs lo, forallb line_fmt chain = true -> cs <> [] -> 0 <= lo ->
+  dom_u 40000 lo (times_of_caps cs) -> text_dom cs = true -> srt_text_dom cs = true ->
+  exists out, run_doc chain cs = Ok out /\ times_of_caps out = run chain (times_of_caps cs) /\ map snd out = map snd cs.
+Proof. exact run_doc_text. Qed.
+Print Assumptions C08_chain_doc_text.
+
+Example C08_ex_srt_string :
+  srt_write_doc [(1000999, 2500000, [Str.lit "hello"; Str.lit "a b"]); (3600000000, 3600040000, [Str.lit "42"])]
+  = Str.lit "1
+00:00:01,000 --> 00:00:02,500
+hello
+a b
+
+2
+01:00:00,000 --> 01:00:00,040
+42
+".
+Proof. vm_compute. reflexivity. Qed.
+Example C08_ex_chain_doc_text :
+  let cs := [(1000999, 2500000, [Str.lit "hello"; Str.lit "a b"]); (3600000000, 3600040000, [Str.lit "42"])] in
+  forallb line_fmt [FSrt; FMdvd; FSrt] = true /\ text_dom cs = true /\ srt_text_dom cs = true /\
+  run_doc [FSrt; FMdvd; FSrt] cs
+  = Ok [(1000000, 2480000, [Str.lit "hello"; Str.lit "a b"]); (3600000000, 3600040000, [Str.lit "42"])].
 Proof. vm_compute. repeat split; reflexivity. Qed.
